@@ -8,6 +8,9 @@
 //	       before every atomic operation) and on the Lean small-step model KG.Model.MaxInflight; shared state,
 //	       position and return value are compared after EVERY step; in-flight <= loaded limit is judged on the
 //	       real code by exact counting.
+//	fsched reconfiguration and interleaving together: request loops (lookup, TryAcquire, Release) on the real
+//	       NewUpstreamLimiter scheduled one atomic operation at a time, with Sync events (resize, type change,
+//	       delete, re-add) in between; compared after every event with the composition of the two Lean models.
 //	stress real concurrency (no scheduler) on the real limiter with resizes; exact one-sided counting.
 //	serve  one request through the real dispatcher.ServeHTTP with a scripted way out (ok, upstream error,
 //	       no endpoint, client abort, panic, 429) and a real max-in-flight schema: the slot is back exactly once.
@@ -46,6 +49,10 @@ func runAny(c *rig.Ctx, raw json.RawMessage, record bool) bool {
 		var s SchedCase
 		must(json.Unmarshal(raw, &s))
 		return runSched(c, s, record)
+	case "fsched":
+		var s FSchedCase
+		must(json.Unmarshal(raw, &s))
+		return runFSched(c, s, record)
 	case "stress":
 		var s StressCase
 		must(json.Unmarshal(raw, &s))
@@ -103,7 +110,8 @@ func main() {
 	rig.Main("C05", func(c *rig.Ctx) {
 		c.SetRule("hist: history of 6-45 ops (Sync with 0-3 schemas of kinds MaxInflight(0-4, rarely -1/large)/TokenBucket/Exempt/empty/global variants, request arrives for (cluster, name), request finishes) over 2 clusters x 3 names on the real NewUpstreamLimiter, local and remote-without-clientset mode; distinct = distinct canonical op list; non-trivial = a max-in-flight schema refused or was reconfigured (resize / type change / delete / re-add) while requests admitted under it were unfinished. " +
 			"sched: schedule of 8-70 events over 2-4 threads and resizes replayed step by step on the real instrumented counter; non-trivial = at least one preemption inside a call. " +
-			"stress: real goroutines on the real limiter. serve: one request through the real dispatcher with a scripted way out.")
+			"fsched: schedule of 10-80 events over 2-4 request loops (lookup, TryAcquire, Release) and Syncs (resize, type change, delete, re-add) replayed step by step through the whole stack; non-trivial = at least two Syncs. " +
+			"stress: real goroutines on the real limiter (bare and through the whole stack with concurrent Syncs). serve: one request through the real dispatcher with a scripted way out.")
 		if c.Replay != "" {
 			var raw json.RawMessage
 			must(c.LoadReplay(&raw))
@@ -127,6 +135,7 @@ func main() {
 		genServe(c)
 		genHist(c)
 		genSched(c)
+		genFSched(c)
 		genStress(c)
 	})
 }
